@@ -613,6 +613,12 @@ func allModVers(th bool) []modVer {
 }
 
 func main() {
+	for _, a := range os.Args[1:] {
+		if a == "-racepass" || a == "--racepass" {
+			raceMain()
+			return
+		}
+	}
 	r := kit.Start("C20", "model_checking")
 	root, err := os.MkdirTemp(os.Getenv("VERIF_SCRATCH"), "c20")
 	if err != nil {
@@ -629,6 +635,9 @@ func main() {
 		var c kase
 		if err := json.Unmarshal(raw, &c); err != nil {
 			kit.Harness("bad case: %v", err)
+		}
+		if c.Kind == "race" {
+			return raceCheck()
 		}
 		if c.Kind == "solo" {
 			schedMu.Lock()
@@ -710,6 +719,9 @@ func main() {
 	if kit.IsWorker() {
 		os.RemoveAll(root)
 		return
+	}
+	for _, v := range raceCheck() {
+		r.ViolationV(v)
 	}
 
 	// (a) fidelity
@@ -819,7 +831,7 @@ func main() {
 	r.Set("not_stored_requests_404", st.notFound)
 	r.Set("directories_served_by_a_real_listening_server", real)
 	r.Set("exhaustive", !tot.Capped && !r.Capped())
-	r.Set("explanation", "(a) every single module version from 4 paths (plain, mixed case, /v2 suffix, element starting with v) x 7 versions (release, pre-release, +incompatible, invalid-for-path v2.0.0, pseudo, a pre-release with a hyphen in its identifier and the pseudo-version derived from it) x 3 layouts x all 32 subsets of 5 files, and every pair of (path, version) with layouts and file sets varied systematically (thorough: triples); all stored .info/.mod/.zip, list per path, and a fixed menu of near-misses per stored version. (b) 9 scenarios of 2-3 concurrent first requests on a fresh server, every schedule with <= 5 preemptions (2 requests) / <= 3 (3 requests) (thorough 7 / 4) at the sync.Map/Mutex/atomic operations of par.Cache; each response must equal the one obtained alone; states = scheduling steps visited")
+	r.Set("explanation", "(a) every single module version from 4 paths (plain, mixed case, /v2 suffix, element starting with v) x 7 versions (release, pre-release, +incompatible, invalid-for-path v2.0.0, pseudo, a pre-release with a hyphen in its identifier and the pseudo-version derived from it) x 3 layouts x all 32 subsets of 5 files, and every pair of (path, version) with layouts and file sets varied systematically (thorough: triples); all stored .info/.mod/.zip, list per path, and a fixed menu of near-misses per stored version. (b) 9 scenarios of 2-3 concurrent first requests on a fresh server, every schedule with <= 5 preemptions (2 requests) / <= 3 (3 requests) (thorough 7 / 4) at the sync.Map/Mutex/atomic operations of par.Cache; each response must equal the one obtained alone; states = scheduling steps visited; plus a free-running pass of the same scenarios and three over a 200-file unsorted module in a -race build (sampling: plain data races are invisible to the cooperative scheduler)")
 	r.Assume("requests whose version part is all lower-case hex are resolved as commit hashes by the handler and are not generated as near-misses (the statement defines nothing for them); module paths containing '_' are not representable in the directory naming scheme and are not generated")
 	r.Finish()
 }
